@@ -82,6 +82,8 @@ type respScript struct {
 	behind string
 	// early: number of 103 Early Hints responses the backend sends before the final one
 	early int
+	// trailers: fields the backend sends after the last chunk of a chunked body (announced in Trailer)
+	trailers [][2]string
 }
 
 var faults = []string{"refused", "dial-error-without-address", "name-not-resolved", "close-before", "rst-before", "partial-head", "garbage-head", "invalid-status", "body-close", "body-rst", "never-answer", "client-cancel"}
@@ -130,6 +132,12 @@ func genResp(t *rapid.T) *respScript {
 		if rapid.IntRange(0, 7).Draw(t, "bigHead") == 0 { // a response head of 80-160 KiB
 			for i := rapid.IntRange(20, 40).Draw(t, "nbig"); i > 0; i-- {
 				s.headers = append(s.headers, [2]string{"X-Long", strings.Repeat("h", 4000) + fmt.Sprint(i)})
+			}
+		}
+		if s.chunked && rapid.IntRange(0, 3).Draw(t, "trailers") == 0 {
+			s.trailers = [][2]string{{"X-Checksum", rapid.StringMatching(`[a-f0-9]{4,8}`).Draw(t, "sum")}}
+			if rapid.Bool().Draw(t, "twoTrailers") {
+				s.trailers = append(s.trailers, [2]string{"X-Final-Status", "ok"})
 			}
 		}
 		if s.chunked {
@@ -189,6 +197,13 @@ func (s *respScript) steps() []sim.Step {
 		head.Write(s.body)
 		return []sim.Step{{Write: head.Bytes()}}
 	}
+	if len(s.trailers) > 0 {
+		var names []string
+		for _, kv := range s.trailers {
+			names = append(names, kv[0])
+		}
+		fmt.Fprintf(&head, "Trailer: %s\r\n", strings.Join(names, ", "))
+	}
 	head.WriteString("Transfer-Encoding: chunked\r\n\r\n")
 	out = append(out, sim.Step{Write: head.Bytes()})
 	off, sent := 0, 0
@@ -219,7 +234,11 @@ func (s *respScript) steps() []sim.Step {
 		out = append(out, sim.Step{Write: append([]byte(nil), cur.Bytes()...), Sleep: 2 * time.Millisecond}, end)
 		return out
 	}
-	cur.WriteString("0\r\n\r\n")
+	cur.WriteString("0\r\n")
+	for _, kv := range s.trailers {
+		fmt.Fprintf(&cur, "%s: %s\r\n", kv[0], kv[1])
+	}
+	cur.WriteString("\r\n")
 	out = append(out, sim.Step{Write: append([]byte(nil), cur.Bytes()...)})
 	return out
 }
@@ -413,6 +432,13 @@ func exchange(fatalf func(string, ...any), s *respScript, method string) {
 		for k, vs := range headerValues(s.headers) {
 			if g := sent.Values(k); strings.Join(g, "\x00") != strings.Join(vs, "\x00") {
 				bad("response header %s: client got %q, backend sent %q", k, g, vs)
+			}
+		}
+		if method != "HEAD" && s.status != 204 && s.status != 304 {
+			for _, kv := range s.trailers {
+				if got := rec.Header().Get(kv[0]); got != kv[1] {
+					bad("trailer %s: the client's response carries %q after the body, the backend sent %q", kv[0], got, kv[1])
+				}
 			}
 		}
 		if method != "HEAD" && !bytes.Equal(rec.Body(), s.body) {
@@ -904,5 +930,87 @@ func FuzzC16_BackendBytes(f *testing.F) {
 			}
 		}
 		vstat.Case("fz"+string(reply), nt, []string{"fuzz-backend-bytes"}, nil)
+	})
+}
+
+// TestC16_StreamHead: a streamed response (chunked / event stream): the backend sends the head
+// and goes quiet. The client must have status and headers then - a long-poll or SSE client waits
+// for exactly that - and every later piece as soon as the backend has sent it, also when the
+// forwarder sits behind a middleware that wraps the response writer.
+func TestC16_StreamHead(t *testing.T) {
+	rapid.Check(t, func(t *rapid.T) {
+		be, err := backend()
+		if err != nil {
+			t.Fatalf("%v", err)
+		}
+		defer be.Release()
+		status := rapid.SampledFrom([]int{200, 200, 206, 404}).Draw(t, "status")
+		ctype := rapid.SampledFrom([]string{"text/event-stream", "application/octet-stream", "text/plain"}).Draw(t, "contentType")
+		first := rapid.StringMatching(`[a-z]{1,40}`).Draw(t, "firstPiece")
+		head := []byte(fmt.Sprintf("HTTP/1.1 %d Status\r\nContent-Type: %s\r\nX-Stream: yes\r\nTransfer-Encoding: chunked\r\n\r\n", status, ctype))
+		be.SetScript(func(*sim.Captured) []sim.Step {
+			return []sim.Step{{Write: head}, {Hold: true}, {Write: []byte(fmt.Sprintf("%x\r\n%s\r\n", len(first), first))}, {Hold: true}, {Write: []byte("0\r\n\r\n")}}
+		})
+		tr := &http.Transport{DisableKeepAlives: true}
+		defer tr.CloseIdleConnections()
+		fwd := forward.New(false)
+		fwd.Transport = tr
+		var h http.Handler = fwd
+		behind := rapid.SampledFrom([]string{"", "trace", "cbreaker", "rebalancer"}).Draw(t, "behind")
+		target, _ := url.Parse("http://" + be.Addr())
+		switch behind {
+		case "trace":
+			h, err = trace.New(h, io.Discard)
+		case "cbreaker":
+			h, err = cbreaker.New(h, "NetworkErrorRatio() > 2.0")
+		case "rebalancer":
+			rr, e := roundrobin.New(h)
+			if e != nil {
+				t.Fatalf("%v", e)
+			}
+			rb, e := roundrobin.NewRebalancer(rr)
+			if e != nil {
+				t.Fatalf("%v", e)
+			}
+			err = rb.UpsertServer(target)
+			h = rb
+		}
+		if err != nil {
+			t.Fatalf("building %s: %v", behind, err)
+		}
+		rec := sim.NewRecorder()
+		req := httptest.NewRequest("GET", "http://front.example/events", nil)
+		req.URL = target
+		done := make(chan any, 1)
+		go func() {
+			defer func() { done <- recover() }()
+			h.ServeHTTP(rec, req)
+		}()
+		waitFor := func(what string, ok func() bool) {
+			deadline := time.Now().Add(10 * time.Second)
+			for !ok() {
+				if time.Now().After(deadline) {
+					be.Release()
+					be.Release()
+					t.Fatalf("streamed response behind %q: %s did not reach the client within 10 s although the backend had sent it and gone quiet (status seen %d, %d body bytes, %d flushes)", behind, what, rec.Status(), len(rec.Body()), rec.FlushCount())
+				}
+				time.Sleep(200 * time.Microsecond)
+			}
+		}
+		waitFor("the response head", func() bool {
+			return rec.HeaderCallCount() > 0 && rec.Status() == status && rec.SentHeader().Get("X-Stream") == "yes" && rec.FlushCount() > 0
+		})
+		be.Release()
+		waitFor("the first piece of the body", func() bool { return string(rec.Body()) == first })
+		be.Release()
+		select {
+		case p := <-done:
+			if p != nil {
+				t.Fatalf("forwarding panicked: %v", p)
+			}
+		case <-time.After(20 * time.Second):
+			t.Fatalf("the exchange did not end after the backend finished the stream")
+		}
+		vstat.Case(fmt.Sprintf("stream|%d|%s|%s|%d", status, ctype, behind, len(first)), true, []string{"streamed-head-then-quiet"}, map[string]any{"status": status, "content_type": ctype, "behind": behind})
 	})
 }
